@@ -595,6 +595,8 @@ def run(prog, rep, tier):
             continue
         body = bs[0]
         rep.fn(body)
+        from ..inline import inlined_body
+        body = inlined_body(prog, body, depth=1)      # the "metadata present?" test may be a shared private accessor
         gets = [b for b in body.calls() if b.term.cmethod in ('get', 'keys') and 'HashMap' in b.term.cdef]
         ok = bool(gets)
         for g in gets:
@@ -604,6 +606,11 @@ def run(prog, rep, tier):
                 def from_meta(k, ob, bb):
                     return k == 'assign' and ob.kind == 'assign' and ob.rv is not None and any(pl[0] == 1 and 'metadata' in place_fields(pl) for pl in ob.rv.src_places())
                 if not must_derive(body, g.term.args[0].place[0], from_meta, extra_transparent=('ok_or', 'ok_or_else', 'as_ref', 'branch', 'unwrap', 'expect')):
-                    ok = False
+                    # through an accessor written with combinators (`metadata.map(|f| &f.files_info).ok_or(..)`): everything the receiver is computed from
+                    # is self.metadata -- no other field of self, no other parameter
+                    o2 = origins(body, [g.term.args[0].place[0]])
+                    selff = {f[1] for f in o2.fields if f and f[0] == 'self' and len(f) > 1}
+                    if not (selff and selff <= {'metadata'} and o2.params <= {1}):
+                        ok = False
         rep.ob('R03.4', ok, 'R03.4|ArchiveReader::%s|metadata' % name,
                'names/offsets looked up in self.metadata.files_info' if ok else 'lookup does not come from self.metadata', body.loc())
